@@ -176,6 +176,79 @@ def trace_interp(ctx, tag, n, mode="mixed", chunks=8, cases_file=None):
     return summ
 
 
+def repo_test_traces(ctx, doc=False):
+    """Direction A on the repository's own tests (hook H3): run tests/ubpf_vm.rs and tests/misc.rs
+    (thorough: the doc-tests too) of /repo's working tree with the execution recorder on, and
+    validate every recorded interpreter run, instruction by instruction, against Machine.tla."""
+    import shutil, testtraces
+    from concurrent.futures import ThreadPoolExecutor
+    tdir = os.path.join(ctx.workdir, "test-traces")
+    shutil.rmtree(tdir, ignore_errors=True)
+    os.makedirs(tdir)
+    env = {"RUSTFLAGS": "--cfg rbpf_verif", "CARGO_TARGET_DIR": os.path.join(WORK, "repo-tests-target"),
+           "RBPF_VERIF_TRACE_DIR": tdir, "CARGO_NET_OFFLINE": "true"}
+    cmds = [["cargo", "test", "--offline", "-j", "8", "--test", "ubpf_vm", "--test", "misc"]]
+    if doc:
+        cmds.append(["cargo", "test", "--offline", "-j", "8", "--doc"])
+    failed_tests = 0
+    for cmd in cmds:
+        p = core.sh(cmd, cwd=core.REPO, env=env, check=False, timeout=1800)
+        if "could not compile" in p.stdout or "error: no test target" in p.stdout:
+            raise ToolError("building /repo's tests with the recorder failed:\n" + p.stdout[-3000:])
+        if p.returncode != 0:
+            failed_tests += 1       # a failing test is the suite's business; its runs are validated all the same
+    chunks = 4
+    paths, nruns, aside, nev = testtraces.convert_dir(tdir, os.path.join(ctx.workdir, "repo-tests.trace"), chunks=chunks)
+    if nruns < 100:
+        raise ToolError(f"only {nruns} interpreter runs were recorded from /repo's tests")
+    devs = sorted({f["key"] for f in core.load_known()["findings"] if "interpreter" in f["where"]})
+
+    def one(path):
+        lines = open(path).read().splitlines()
+        out = {"events": 0, "dev": 0, "bad": [], "states": 0, "gen": 0}
+        attempt = 0
+        while lines and attempt < 8:
+            attempt += 1
+            cur = f"{path}.try{attempt}"
+            open(cur, "w").write("\n".join(lines) + "\n")
+            r, (verdict, a, b) = validate_trace(ctx, f"{ctx.prop}-repo-tests-{os.path.basename(path)}-{attempt}", cur, devs)
+            out["states"] += r.distinct
+            out["gen"] += r.generated
+            if verdict == "accepted":
+                out["events"] += a
+                out["dev"] += b
+                break
+            pos = a if verdict == "rejected" else 1
+            starts = [i for i, ln in enumerate(lines) if ln.startswith('{"e":"start"')]
+            si = max([i for i in starts if i < pos] or [0])
+            nxt = min([i for i in starts if i > si] or [len(lines)])
+            ev = json.loads(lines[min(pos - 1, len(lines) - 1)])
+            out["bad"].append({"case": json.loads(lines[si])["case"], "event_index_in_run": pos - si, "event": ev})
+            out["events"] += si
+            lines = lines[:si] + lines[nxt:]
+        return out
+
+    with ThreadPoolExecutor(max_workers=chunks) as ex:
+        res = list(ex.map(one, paths))
+    ctx.states += sum(r["states"] for r in res)
+    ctx.transitions += sum(r["gen"] for r in res)
+    nbad = sum(len(r["bad"]) for r in res)
+    ctx.traces += nruns - nbad
+    ctx.evaluations += nruns
+    ndev = sum(r["dev"] for r in res)
+    if ndev and "jmp_imm_zext" in core.known_devs(ctx.prop):
+        ctx.known_hits["jmp_imm_zext"] = ctx.known_hits.get("jmp_imm_zext", 0) + ndev
+    ctx.extra["repo_tests"] = {"interpreter_runs_validated": nruns - nbad, "events": sum(r["events"] for r in res), "set_aside": aside,
+                               "test_commands_failing": failed_tests, "steps_explained_by_known_finding": ndev,
+                               "what": "every interpreter run of tests/ubpf_vm.rs + tests/misc.rs" + (" + doc-tests" if doc else "")}
+    ctx.tlc_runs.append({"model": f"TraceInterp[repo tests] x{chunks}", "events_validated": sum(r["events"] for r in res)})
+    for r in res:
+        for b in r["bad"]:
+            ev = b["event"]
+            ctx.violation(f"an interpreter run of /repo's own tests is not a behaviour of Machine.tla at event {b['event_index_in_run']} ({ev.get('e')}, pc={ev.get('pc')})",
+                          {"kind": "trace", "case": b["case"], "event": ev, "event_index_in_run": b["event_index_in_run"]})
+
+
 def negative_controls_C01(ctx, recs):
     """Demonstrate the binding (DESIGN 4.4): a corrupted trace must be rejected at the corrupted
     event, and a case file with one expected value changed must make the replay report it.
@@ -234,6 +307,7 @@ def run_C01(ctx):
     replay_exec(ctx, "isa", recs, ["interp"])
     # direction A: random terminating programs, every step validated
     trace_interp(ctx, "structured", 150 if ctx.quick else 4000, mode="structured")
+    repo_test_traces(ctx, doc=not ctx.quick)
     negative_controls_C01(ctx, recs)
     ops = {sg[1][0] for r_ in recs for sg in r_["case"]["prog"]}
     ctx.extra["distinct_opcodes_in_cases"] = len(ops)
@@ -267,6 +341,7 @@ def run_C02(ctx):
     recs = exec_cases(ctx, "bounds", ["bounds"], rate, timeout=1500)
     ctx.nontrivial = len({json.dumps(r["case"]["id"]) for r in recs})
     replay_exec(ctx, "bounds", recs, ["interp"])
+    repo_test_traces(ctx, doc=not ctx.quick)      # the suite's own out-of-bounds and in-bounds runs, step by step
     ctx.extra["refused"] = sum(1 for r in recs if r["exp"]["k"] == "err")
     ctx.extra["performed"] = sum(1 for r in recs if r["exp"]["k"] == "ok")
 
@@ -290,6 +365,7 @@ def run_C07(ctx):
     # registers, helper calls inside functions): call depth, r6-r10 and return addresses of every
     # step are validated by TraceInterp
     trace_interp(ctx, "structured", 200 if ctx.quick else 5000, mode="structured")
+    repo_test_traces(ctx, doc=not ctx.quick)
     ctx.extra["depths"] = sorted({r["case"]["id"][1] for r in recs if r["case"]["id"][0] in ("chain", "rec")})
     ctx.extra["error_outcomes"] = sum(1 for r in recs if r["exp"]["k"] == "err")
 
@@ -301,6 +377,7 @@ def run_C08(ctx):
     replay_exec(ctx, "helpers", recs, ["interp", "jit", "cl"])
     # direction A: helper events (id, arguments, returned value) of random programs
     trace_interp(ctx, "structured", 200 if ctx.quick else 5000, mode="structured")
+    repo_test_traces(ctx, doc=not ctx.quick)
     ctx.extra["unregistered_id_cases"] = sum(1 for r in recs if r["exp"]["class"] == "nohelper")
     ctx.extra["helper_calls_expected"] = sum(len(r["exp"]["hlog"]) for r in recs)
 
